@@ -53,6 +53,8 @@ pub struct KDisplay;
 pub struct KAsRef;
 pub struct KCloneOnly;
 pub struct KIntResMixed;
+pub struct KAttrs;
+pub struct KLife;
 pub struct KGrpA;
 pub struct KGrpR;
 pub struct KGrpB;
@@ -139,6 +141,8 @@ pub trait Everything:
     + IntRes
     + IntResAlias
     + IntResMixed
+    + Attrs
+    + Life<'static, u64>
     + Consume
     + Gen<usize>
     + Gen<u64>
@@ -163,6 +167,8 @@ impl<T> Everything for T where
         + IntRes
         + IntResAlias
         + IntResMixed
+        + Attrs
+        + Life<'static, u64>
         + Consume
         + Gen<usize>
         + Gen<u64>
@@ -213,6 +219,8 @@ single!(KBasic, Basic, BASIC, call_basic, m, []);
 single!(KReadOnly, ReadOnly, READONLY, call_readonly, r, []);
 single!(KShapes, Shapes, SHAPES, call_shapes, m, []);
 single!(KIntRes, IntRes, INTRES, call_intres, m, []);
+single!(KAttrs, Attrs, ATTRS, call_attrs, m, []);
+single!(KLife, Life<'static, u64>, LIFE, call_life, m, []);
 single!(KIntResMixed, IntResMixed, INTRESMIXED, call_intresmixed, r, []);
 single!(KDebug, core::fmt::Debug, FMTDEBUG, call_debug, r, []);
 single!(KDisplay, core::fmt::Display, FMTDISPLAY, call_display, r, []);
